@@ -2,6 +2,7 @@ package checks
 
 import (
 	"fmt"
+	"strings"
 
 	"verif/engine/interp"
 )
@@ -151,6 +152,88 @@ func c15Case(scopes map[string]string) *Case {
 	return cs
 }
 
+// c15SpelledModifierCase: one statement of the given kind whose scope
+// modifier is written in another letter case. Nothing is demanded about
+// acceptance; an accepted program must give the name the scope the modifier
+// reads as.
+func c15SpelledModifierCase(kind, spelling string) *Case {
+	atoms := &AtomTable{Coded: true}
+	name := atoms.New(ClsUserName, kind, "names")
+	cmd := func() *Cmd { return &Cmd{Name: A(atoms.New(ClsPlainCmd, "cmd", ""))} }
+	var top interface{}
+	target := name
+	switch kind {
+	case "script":
+		top = &Script{Name: name, Scope: spelling, Body: []Stmt{cmd()}}
+	case "text":
+		top = &TextTop{Name: name, Scope: spelling, Lits: []*StrLit{{Parts: []Tok{L("abc")}}}}
+	case "movement":
+		top = &MovementTop{Name: name, Scope: spelling, Steps: []*Step{{Name: L("walk_down")}}}
+	case "mart":
+		top = &MartTop{Name: name, Scope: spelling, Items: []*Step{{Name: L("ITEM_X")}}}
+	case "mapscripts":
+		top = &MapScriptsTop{Name: name, Scope: spelling, Entries: []*MapEntry{{Type: atoms.New(ClsIdent, "mstype", ""), Kind: "plain", Label: atoms.New(ClsIdent, "target", "")}}}
+	case "label":
+		target = atoms.New(ClsUserName, "lbl", "names")
+		top = &Script{Name: name, Body: []Stmt{cmd(), &Label{Name: target, Scope: spelling}, cmd()}}
+	}
+	prog := &Program{Atoms: atoms, Tops: []interface{}{top}}
+	wantGlobal := strings.ToLower(spelling) == "global"
+	cs := &Case{Name: fmt.Sprintf("c15/modifier-spelling/%s(%s)", kind, spelling), Prog: prog, Variants: optVariants[:1], NonTrivial: true, Shape: c15Shape{Scopes: map[string]string{kind: spelling}}}
+	cs.Oracle = func(x *OracleCtx) *Violation {
+		res := x.Res["opt"]
+		if res.Err.Panic != "" {
+			return &Violation{Sub: "panic", Msg: res.Err.Panic}
+		}
+		if res.Err.IsErr {
+			return nil
+		}
+		for _, al := range ParseAsm(res.Out) {
+			if al.Kind == "label" && sameValue(x.C, al.Name, target.Val) == 1 && al.Global != wantGlobal {
+				return &Violation{Sub: "scope", Msg: fmt.Sprintf("%s with the modifier (%s) is accepted and emitted with global=%v", kind, spelling, al.Global)}
+			}
+		}
+		return nil
+	}
+	return cs
+}
+
+// c15TextNamedLikeGeneratedCase: a text statement (global by default) named
+// like the label generated for an inline text of the same content. The pinned
+// code rejects the program (C20); were it accepted, the name the author wrote
+// as a global text must still be exported.
+func c15TextNamedLikeGeneratedCase(textFirst bool) *Case {
+	atoms := &AtomTable{Coded: true}
+	tn := atoms.New(ClsIdent, "text", "")
+	cmd := atoms.New(ClsPlainCmd, "cmd", "")
+	script := fmt.Sprintf("script MyScript {\n  %s(\"Hello$\")\n}", cmd.Placeholder())
+	text := fmt.Sprintf("text %s {\n  \"Hello$\"\n}", tn.Placeholder())
+	src := script + "\n" + text
+	if textFirst {
+		src = text + "\n" + script
+	}
+	prog := &Program{Atoms: atoms, Tops: []interface{}{&TopRaw{Text: src}}}
+	cs := &Case{Name: fmt.Sprintf("c15/text-named-like-generated/text-first=%v", textFirst), Prog: prog, Variants: optVariants[:1], NonTrivial: true, Shape: c15Shape{Scopes: map[string]string{"text": "named like a generated label"}}}
+	cs.Oracle = func(x *OracleCtx) *Violation {
+		res := x.Res["opt"]
+		if res.Err.Panic != "" {
+			return &Violation{Sub: "panic", Msg: res.Err.Panic}
+		}
+		if res.Err.IsErr {
+			return nil
+		}
+		// whatever the text is called (MyScript_Text_0 included)
+		lbl := tn.Val
+		for _, al := range ParseAsm(res.Out) {
+			if al.Kind == "label" && sameValue(x.C, al.Name, lbl) == 1 && al.Global {
+				return nil
+			}
+		}
+		return &Violation{Sub: "scope", Msg: "the program is accepted, but the text statement " + interp.ToString(lbl) + " (global by default) is not exported"}
+	}
+	return cs
+}
+
 // RunC15 is the check of property C15.
 func RunC15(env *Env, rep *Report) {
 	kinds := []string{"script", "text", "movement", "mart", "mapscripts"}
@@ -180,6 +263,15 @@ func RunC15(env *Env, rep *Report) {
 			}
 		}
 	}
+	// modifiers in another letter case: whatever the compiler makes of them
+	// (the pinned code rejects them), a program it accepts exports the name
+	// exactly when the modifier reads "global"
+	for _, k := range append(append([]string{}, kinds...), "label") {
+		for _, sp := range []string{"GLOBAL", "Global", "LOCAL", "Local"} {
+			cases = append(cases, c15SpelledModifierCase(k, sp))
+		}
+	}
+	cases = append(cases, c15TextNamedLikeGeneratedCase(false), c15TextNamedLikeGeneratedCase(true))
 	rep.Technique = "symbolic execution of the real parser and emitter (go/ssa) with all names symbolic; structural assertions on the label definition lines of the output rope"
 	rep.Explanation = "Bounded symbolic verification of a finite property. One program containing every top-level statement kind (script with unmarked, (global) and (local) labels inside branches and loops, inline text, moves(), a script with an empty body, text, movement, mart, mapscripts with plain, inline - also empty - and table entries with plain, inline and empty inline rows) is compiled by symbolic execution for every listed combination of scope modifiers, with all names symbolic and -optimize on and off. Every label definition line of the output must be one of the expected entities with the expected '::' / ':' or a generated sub-label with ':'; every expected entity must be defined exactly once. The space {statement kind} x {no modifier, global, local} x {generated label kinds} is covered completely by the thorough tier (3^5 combinations) and one-at-a-time by the quick tier."
 	rep.Bounds = map[string]interface{}{"combinations": len(cases), "program": "one fixed program shape containing every label-producing construct"}
